@@ -713,6 +713,11 @@ def run(repo, rep):
     rep.rule('R12f', 'see C12: FunctionDefinition.clone copies the '
              'parameter definitions it later edits')
     c17.check_multi(repo, rep, repo.module(c17.CTX))
+    rep.rule('R17d', 'see C17: the layer walk hands every layer the name, the '
+             'filter and the use_convention flag it was given (each member '
+             'of a merged layer spells the name in its own convention, so '
+             'the answer does not depend on which member comes first)')
+    c17.check_collect(repo, rep, repo.module(c17.CTX))
     c12.check_clone_copies_parameters(repo, rep)
     ctxm = repo.module('yaql.language.contexts')
     impls = [f for q, f in ctxm.functions.items()
